@@ -496,6 +496,35 @@ func replayRelational(checker, mode string) func(rc *runCtx, h *harness, v *inte
 			var n2 []string
 			ys, n2 = realise(model, specView(), "d2", "decl", 3)
 			notes = append(notes, n2...)
+			// comment groups the harness placed inside the declarations (comment-walking checkers)
+			inject := func(srcs []string, root string) []string {
+				n := 0
+				if v, ok := model[root+".List#len"].(string); ok {
+					fmt.Sscan(v, &n)
+				}
+				if n == 0 {
+					return srcs
+				}
+				var lines []string
+				for j := 0; j < n; j++ {
+					t, _ := model[fmt.Sprintf("%s.List[%d].Text?s", root, j)].(string)
+					if t == "" {
+						t = "// gsx"
+					}
+					lines = append(lines, "\t"+t)
+				}
+				var out []string
+				for _, src := range srcs {
+					if i := strings.Index(src, "{\n"); i >= 0 {
+						out = append(out, src[:i+2]+strings.Join(lines, "\n")+"\n"+src[i+2:])
+					} else {
+						out = append(out, src)
+					}
+				}
+				return out
+			}
+			xs = inject(xs, "c1")
+			ys = inject(ys, "c2")
 			// both realisations number their invented names from 1: keep them apart in the merged file
 			for k := range ys {
 				ys[k] = strings.NewReplacer("gsxv", "gsxw", "gsxd", "gsxe", "gsxT_", "gsxU_").Replace(ys[k])
